@@ -57,6 +57,29 @@ pub fn run(ctx: &mut Ctx) {
     if ctx.want_sample {
         ctx.verdict.sample = Some(desc.clone());
     }
+    // one zstd run in three: the library has compressed the same source at ANOTHER level earlier
+    // in this process (on the same pool thread). Nothing of that call may show in a later archive
+    let mut warm: Option<(u32, Vec<u8>)> = None;
+    if let gen::Comp::Zstd(l2) = spec.comp {
+        if gen::chance(1, 3) {
+            let l1 = gen::t(|t| *t.pick(&[1u32, 2, 3, 5, 7, 9]));
+            if l1 != l2 {
+                let mut s = spec.clone();
+                s.comp = gen::Comp::Zstd(l1);
+                let (_, outcome, archive, _, _) = compress_with(&s, &source, 2);
+                if !outcome.is_success() {
+                    ctx.fail(&format!("compress-outcome:{}", outcome.class()), format!("lib (zstd level {}) ended with {}; {}", l1, outcome.short(), desc));
+                    return;
+                }
+                simkit::count("probe:earlier-compression-at-another-level");
+                warm = Some((l1, archive));
+            }
+        }
+    }
+    // one run in eight: the same CLI command is started twice, the second while the first is at
+    // work (a double click, a cron job overtaking itself). Without --force-create at most one of
+    // them may report success, and what it leaves is the archive of an undisturbed run
+    let duplicate_at = if gen::chance(1, 8) { Some(gen::draw(k_cli)) } else { None };
     let mut first: [Option<(Vec<u8>, String)>; 2] = [None, None];
     let mut runs = Vec::new();
     let mut temp_name: Option<String> = None;
@@ -74,6 +97,49 @@ pub fn run(ctx: &mut Ctx) {
                 let junk = vec![0xC3u8; source.len() * 2 + 4096 + gen::draw(3000) as usize];
                 scen::put_file(t, &junk);
                 simkit::count("probe:stale-temp-file-before-compress");
+            }
+        }
+        if !lib && duplicate_at == Some(i) {
+            if let Some((a0, how0)) = &first[0] {
+                scen::draw_schedule();
+                scen::quiet(|| {
+                    let _ = std::fs::remove_file("a.cba");
+                });
+                scen::put_file("src.bin", &source);
+                scen::set_stdin(None);
+                let args = scen::compress_args(&s, Some("src.bin"), "a.cba", false);
+                let delay = match gen::draw(4) {
+                    0 => gen::draw(4),
+                    1 => gen::draw(40),
+                    _ => gen::draw(400),
+                };
+                if let Some((oa, ob)) = crate::cli::run_cli_pair(&args, &args, delay) {
+                    simkit::count("probe:same-compress-command-twice-at-once");
+                    let left = scen::get_file("a.cba");
+                    let how = format!("two `bita compress` for the same output at once, the second {} steps later: {} / {}", delay, oa.short(), ob.short());
+                    for o in [&oa, &ob] {
+                        if matches!(o, crate::cli::Outcome::Panic(_) | crate::cli::Outcome::Deadlock | crate::cli::Outcome::StepBudget) {
+                            ctx.fail(&format!("compress-outcome:{}", o.class()), format!("{}; {}", how, desc));
+                            return;
+                        }
+                    }
+                    if oa.is_success() && ob.is_success() {
+                        ctx.fail("duplicate-both-succeed", format!("{}: both report success although neither was told to overwrite; {}", how, desc));
+                        return;
+                    }
+                    if (oa.is_success() || ob.is_success()) && left.as_deref() != Some(&a0[..]) {
+                        ctx.fail(
+                            "cli-archives-differ",
+                            format!("{}: the one that succeeded left {} where an undisturbed run [{}] gave {} (first difference at {:?}); {}", how, left.as_deref().map(gen::fp).unwrap_or_else(|| "no file".into()), how0, gen::fp(a0), left.as_deref().and_then(|l| gen::first_diff(a0, l)), desc),
+                        );
+                        return;
+                    }
+                    if !oa.is_success() && !ob.is_success() {
+                        simkit::count("duplicate-commands-both-failed");
+                    }
+                    runs.push(how);
+                    continue;
+                }
             }
         }
         let (wname, outcome, archive, sched, short) = compress_with(&s, &source, writer);
@@ -98,6 +164,38 @@ pub fn run(ctx: &mut Ctx) {
                         format!("two compressions of the same source and options differ at byte {:?} ({} vs {}): [{}] vs [{}]; {}", gen::first_diff(a0, &archive), gen::fp(a0), gen::fp(&archive), how0, how, desc),
                     );
                     return;
+                }
+            }
+        }
+    }
+    if let (Some((l1, _)), Some((a, how)), gen::Comp::Zstd(l2)) = (&warm, &first[1], spec.comp) {
+        use crate::refmodel::format::{decode_archive, ref_chunk};
+        if let Ok(ra) = decode_archive(a) {
+            let enc = |chunk: &[u8], level: u32| {
+                let mut out = Vec::new();
+                zstd::stream::copy_encode(chunk, &mut out, level as i32).map(|_| out).ok()
+            };
+            // (the first dozen stored chunks are enough: a leak of the earlier level shows in all of them)
+            for (i, d) in ra.dict.descriptors.iter().enumerate().take(12) {
+                if d.archive_size == d.source_size {
+                    continue;
+                }
+                let from = (ra.chunk_data_offset + d.archive_offset) as usize;
+                let Some(stored) = a.get(from..from + d.archive_size as usize) else { continue };
+                let Ok(chunk) = ref_chunk(&ra, a, i) else { continue };
+                let (Some(e1), Some(e2)) = (enc(&chunk, *l1), enc(&chunk, l2)) else { continue };
+                if e1 == e2 {
+                    continue;
+                }
+                if stored == &e1[..] {
+                    ctx.fail(
+                        "options-of-an-earlier-call",
+                        format!("[{}] chunk #{} is stored as zstd level {} would compress it, the level of an earlier create_archive in this process, not as level {} which the options and the header say; {}", how, i, l1, l2, desc),
+                    );
+                    return;
+                }
+                if stored == &e2[..] {
+                    simkit::count("probe:chunk-equals-fresh-encode-at-declared-level");
                 }
             }
         }
